@@ -55,6 +55,22 @@ def to_fp(v, sort=F64):
   raise UnsupportedConstruct('bool used as number')
 
 
+def get_constant(modname, name):
+  """Value of a module-level `NAME = <literal>` assignment in the working
+  tree."""
+  path = os.path.join(REPO, 'note_seq', modname + '.py')
+  with open(path) as f:
+    tree = ast.parse(f.read())
+  for st in tree.body:
+    if isinstance(st, ast.Assign) and len(st.targets) == 1 and isinstance(
+        st.targets[0], ast.Name) and st.targets[0].id == name:
+      try:
+        return ast.literal_eval(st.value)
+      except ValueError:
+        raise UnsupportedConstruct('%s.%s is not a literal' % (modname, name))
+  raise UnsupportedConstruct('%s.%s not found' % (modname, name))
+
+
 def get_function(modname, qualname):
   """Returns (FunctionDef node, source text) from the working tree."""
   path = os.path.join(REPO, 'note_seq', modname + '.py')
@@ -335,6 +351,326 @@ class Translator(object):
         else:
           res = self.ite(guard, val, res)
     return res
+
+
+# ---------------------------------------------------------------------------
+# standard model of floating point over the reals (for NRA lemmas)
+
+
+class RV(object):
+  """A binary64 value in the standard model: exact real term `e`, a bound `r`
+  on its accumulated relative error (value = e * (1 + D), |D| <= r) and whether
+  e is known to be non-negative.  `.t` materialises e * (1 + D) with one
+  delta per distinct (e, r)."""
+  kind = 'fp'
+
+  def __init__(self, tr, e, r, nn):
+    self.tr, self.e, self.r, self.nn = tr, e, r, nn
+    self._t = None
+
+  @property
+  def t(self):
+    if self._t is None:
+      if self.r == 0:
+        self._t = self.e
+      else:
+        d = self.tr._delta(('mat', self.e.sexpr(), str(self.r)), self.r)
+        self._t = self.e * (1 + d)
+    return self._t
+
+
+class StdModel(Translator):
+  """Python AST -> real / integer arithmetic in the *standard model* of
+  binary64: every floating-point operation returns exact * (1 + d) with
+  |d| <= 2^-53 (no overflow, underflow or NaN: an assumption of every lemma
+  built with it).  Python ints are mathematical integers, int -> float is
+  exact (|n| < 2^53, stated per lemma).
+
+  Relative errors of products, quotients and sums of NON-NEGATIVE quantities
+  are accumulated as a bound (the classical forward analysis:
+  (1+r1)(1+r2)(1+u) - 1 for a product, (1+r1)(1+u)/(1-r2) - 1 for a quotient,
+  (1+max(r1,r2))(1+u) - 1 for a sum of non-negative terms) and a single delta
+  with that bound is introduced where the value is consumed (comparison,
+  int(), ceil ...); anything else (subtraction, operands of unknown sign) gets
+  one delta per operation.  Operations on two constants are folded with
+  Python's own binary64 arithmetic.  The same expression always gets the same
+  delta (floating point is deterministic), so a specification expression that
+  repeats an expression of the code denotes the same value.  int() /
+  math.ceil / math.floor / round introduce fresh integers constrained by
+  their defining inequalities.  Everything collected in `self.side` must be
+  asserted together with the lemma.  The model over-approximates the
+  implementation: unsat means the lemma holds in the standard model; a sat
+  answer is only a candidate and is replayed on the real code before anything
+  is reported."""
+
+  def __init__(self, consts=None, tag='sm', nonneg=(), exact=False):
+    import fractions  # pylint: disable=g-import-not-at-top
+    Translator.__init__(self, consts=consts)
+    self.side = []
+    self.memo = {}
+    self.tag = tag
+    # exact=True: plain real arithmetic (no rounding), for algebraic lemmas
+    self.u = fractions.Fraction(0) if exact else fractions.Fraction(1, 2**53)
+    self.deltas = []
+    self.fresh_ints = []
+    self.nonneg = set(str(x) for x in nonneg)  # names of non-negative consts
+
+  # -- helpers
+  def _delta(self, key, bound=None):
+    if bound is None:
+      bound = self.u
+    if key not in self.memo:
+      d = z3.Real('%s_d%d' % (self.tag, len(self.deltas)))
+      self.deltas.append(d)
+      b = z3.RealVal(bound)
+      self.side.append(z3.And(d >= -b, d <= b))
+      self.memo[key] = d
+    return self.memo[key]
+
+  def _fresh_int(self, key):
+    if key not in self.memo:
+      k = z3.Int('%s_k%d' % (self.tag, len(self.fresh_ints)))
+      self.fresh_ints.append(k)
+      self.memo[key] = k
+      return k, True
+    return self.memo[key], False
+
+  def _is_nn(self, v):
+    if isinstance(v, RV):
+      return v.nn
+    t = z3.simplify(v.t)
+    if z3.is_int_value(t):
+      return t.as_long() >= 0
+    if z3.is_rational_value(t):
+      return t.numerator_as_long() >= 0
+    return v.kind == 'int' and str(t) in self.nonneg
+
+  def declare_nonneg(self, term):
+    self.nonneg.add(str(term))
+
+  def rv(self, v):
+    """Any numeric value as an RV."""
+    if isinstance(v, RV):
+      return v
+    if v.kind == 'int':
+      return RV(self, z3.ToReal(v.t), 0, self._is_nn(v))
+    if v.kind == 'fp':
+      return RV(self, v.t, 0, self._is_nn(v) or str(v.t) in self.nonneg)
+    raise UnsupportedConstruct('bool used as number')
+
+  def real(self, v):
+    return self.rv(v).t
+
+  def _pyfloat(self, v):
+    """The Python float of a constant value, or None."""
+    import fractions  # pylint: disable=g-import-not-at-top
+    if isinstance(v, RV) and v.r != 0:
+      return None
+    t = z3.simplify(v.e if isinstance(v, RV) else v.t)
+    if z3.is_int_value(t):
+      return float(t.as_long())
+    if z3.is_rational_value(t):
+      fr = fractions.Fraction(t.numerator_as_long(), t.denominator_as_long())
+      f = float(fr)
+      return f if fractions.Fraction(f) == fr else None
+    return None
+
+  def _const(self, c):
+    import fractions  # pylint: disable=g-import-not-at-top
+    if isinstance(c, (V, RV)):
+      return c
+    if isinstance(c, bool):
+      return V(z3.BoolVal(c), 'bool')
+    if isinstance(c, int):
+      return V(z3.IntVal(c), 'int')
+    if isinstance(c, float):
+      return RV(self, z3.RealVal(fractions.Fraction(c)), 0, c >= 0)
+    raise UnsupportedConstruct('constant %r' % (c,))
+
+  # -- expressions
+  def expr(self, n, env):
+    if isinstance(n, ast.Constant):
+      return self._const(n.value)
+    if isinstance(n, ast.Name) and n.id not in env and n.id in self.consts:
+      return self._const(self.consts[n.id])
+    if isinstance(n, ast.Attribute):
+      key = ast.unparse(n)
+      if key in env:
+        return env[key]
+      if key in self.consts:
+        return self._const(self.consts[key])
+      raise UnsupportedConstruct('attribute %s line %d' % (key, n.lineno))
+    if isinstance(n, ast.UnaryOp) and isinstance(n.op, ast.USub):
+      v = self.expr(n.operand, env)
+      if v.kind == 'int':
+        return V(-v.t, 'int')
+      v = self.rv(v)
+      return RV(self, -v.e, v.r, False)
+    return Translator.expr(self, n, env)
+
+  def truth(self, v):
+    if v.kind == 'bool':
+      return v.t
+    return v.t != 0
+
+  def ite(self, c, a, b):
+    if a.kind == b.kind and a.kind != 'fp':
+      return V(z3.If(c, a.t, b.t), a.kind)
+    if 'bool' in (a.kind, b.kind):
+      raise UnsupportedConstruct('ite of mixed bool/number')
+    a, b = self.rv(a), self.rv(b)
+    return RV(self, z3.If(c, a.t, b.t), 0, a.nn and b.nn)
+
+  def binop(self, op, a, b, n):
+    import fractions  # pylint: disable=g-import-not-at-top
+    if a.kind == 'int' and b.kind == 'int' and not isinstance(op, ast.Div):
+      if isinstance(op, ast.Add):
+        r = V(a.t + b.t, 'int')
+      elif isinstance(op, ast.Sub):
+        return V(a.t - b.t, 'int')
+      elif isinstance(op, ast.Mult):
+        r = V(a.t * b.t, 'int')
+      else:
+        raise UnsupportedConstruct('int op %s line %d' %
+                                   (type(op).__name__, n.lineno))
+      if self._is_nn(a) and self._is_nn(b):
+        self.nonneg.add(str(z3.simplify(r.t)))
+      return r
+    name = {ast.Add: 'add', ast.Sub: 'sub', ast.Mult: 'mul',
+            ast.Div: 'div'}.get(type(op))
+    if name is None:
+      raise UnsupportedConstruct('op %s line %d' % (type(op).__name__,
+                                                    n.lineno))
+    x, y = self.rv(a), self.rv(b)
+    fx, fy = self._pyfloat(x), self._pyfloat(y)
+    if fx is not None and fy is not None and not (name == 'div' and fy == 0):
+      # constant folding in true binary64
+      val = {'add': fx + fy, 'sub': fx - fy, 'mul': fx * fy,
+             'div': fx / fy if fy else 0.0}[name]
+      return RV(self, z3.RealVal(fractions.Fraction(val)), 0, val >= 0)
+    # exact special cases
+    if name in ('mul', 'div') and fy == 1.0:
+      return x
+    if name == 'mul' and fx == 1.0:
+      return y
+    if name in ('add', 'sub') and fy == 0.0:
+      return x
+    if name == 'add' and fx == 0.0:
+      return y
+    u = self.u
+    if x.nn and y.nn and name in ('mul', 'div', 'add'):
+      if name == 'mul':
+        return RV(self, x.e * y.e, (1 + x.r) * (1 + y.r) * (1 + u) - 1, True)
+      if name == 'div':
+        return RV(self, x.e / y.e, (1 + x.r) * (1 + u) / (1 - y.r) - 1, True)
+      return RV(self, x.e + y.e, (1 + max(x.r, y.r)) * (1 + u) - 1, True)
+    exact = {'add': x.t + y.t, 'sub': x.t - y.t, 'mul': x.t * y.t,
+             'div': x.t / y.t}[name]
+    return RV(self, exact, u, x.nn and y.nn and name != 'sub')
+
+  def compare(self, op, a, b, n):
+    f = {
+        ast.Lt: lambda x, y: x < y,
+        ast.LtE: lambda x, y: x <= y,
+        ast.Gt: lambda x, y: x > y,
+        ast.GtE: lambda x, y: x >= y,
+        ast.Eq: lambda x, y: x == y,
+        ast.NotEq: lambda x, y: x != y
+    }.get(type(op))
+    if f is None:
+      raise UnsupportedConstruct('compare line %d' % n.lineno)
+    if a.kind == 'int' and b.kind == 'int':
+      return V(f(a.t, b.t), 'bool')
+    return V(f(self.real(a), self.real(b)), 'bool')
+
+  def _to_int(self, v, how):
+    """how in trunc|ceil|floor|nearest"""
+    v = self.rv(v)
+    x = v.t
+    k, new = self._fresh_int((how, x.sexpr()))
+    if new:
+      kr = z3.ToReal(k)
+      if how == 'floor' or (how == 'trunc' and v.nn):
+        self.side.append(z3.And(kr <= x, x < kr + 1))
+      elif how == 'ceil':
+        self.side.append(z3.And(kr - 1 < x, x <= kr))
+      elif how == 'trunc':
+        self.side.append(z3.If(x >= 0, z3.And(kr <= x, x < kr + 1),
+                               z3.And(kr >= x, x > kr - 1)))
+      else:  # nearest, ties either way (over-approximates half-to-even)
+        h = z3.Q(1, 2)
+        self.side.append(z3.And(kr - h <= x, x <= kr + h))
+      if v.nn:
+        self.nonneg.add(str(k))
+    return V(k, 'int')
+
+  def call(self, n, env):
+    f = n.func
+    name = None
+    if isinstance(f, ast.Name):
+      name = f.id
+    elif isinstance(f, ast.Attribute) and isinstance(f.value, ast.Name):
+      name = f.value.id + '.' + f.attr
+    if ast.unparse(n) in env:
+      return env[ast.unparse(n)]
+    if name == 'len':
+      raise UnsupportedConstruct('len of unknown object line %d' % n.lineno)
+    if n.keywords:
+      raise UnsupportedConstruct('keyword call %s line %d' % (name, n.lineno))
+    args = [self.expr(a, env) for a in n.args]
+    if name in ('int', 'math.ceil', 'math.floor') and len(args) == 1:
+      a = args[0]
+      if a.kind == 'int':
+        return a
+      return self._to_int(a, {'int': 'trunc', 'math.ceil': 'ceil',
+                              'math.floor': 'floor'}[name])
+    if name == 'float' and len(args) == 1:
+      return self.rv(args[0])
+    if name == 'round' and len(args) in (1, 2):
+      a = args[0]
+      if len(args) == 1:
+        if a.kind == 'int':
+          return a
+        return self._to_int(a, 'nearest')
+      nd = z3.simplify(args[1].t)
+      if args[1].kind != 'int' or not z3.is_int_value(nd):
+        raise UnsupportedConstruct('round with symbolic digits line %d' %
+                                   n.lineno)
+      scale = 10 ** nd.as_long()
+      a = self.rv(a)
+      k = self._to_int(RV(self, a.t * scale, 0, a.nn), 'nearest')
+      return RV(self, z3.ToReal(k.t) / scale, self.u, a.nn)
+    if name in ('max', 'min') and len(args) == 2:
+      a, b = args
+      if a.kind == 'int' and b.kind == 'int':
+        c2 = b.t > a.t if name == 'max' else b.t < a.t
+        return V(z3.If(c2, b.t, a.t), 'int')
+      x, y = self.rv(a), self.rv(b)
+      c2 = y.t > x.t if name == 'max' else y.t < x.t
+      return RV(self, z3.If(c2, y.t, x.t), 0, x.nn and y.nn)
+    if name == 'abs' and len(args) == 1:
+      a = args[0]
+      if a.kind == 'int':
+        return V(z3.If(a.t < 0, -a.t, a.t), 'int')
+      a = self.rv(a)
+      return RV(self, z3.If(a.t < 0, -a.t, a.t), 0, True)
+    raise UnsupportedConstruct('call %s line %d' % (name, n.lineno))
+
+  def assigns(self, stmts, env, stop_at=None):
+    """Translates the leading straight-line assignments of a body into env and
+    stops (without error) at the first statement it cannot translate; returns
+    the number of statements consumed."""
+    done = 0
+    for st in stmts:
+      if isinstance(st, ast.Expr) and isinstance(st.value, ast.Constant):
+        done += 1
+        continue
+      try:
+        self.block([st], env)
+      except UnsupportedConstruct:
+        break
+      done += 1
+    return done
 
 
 # ---------------------------------------------------------------------------
